@@ -9,7 +9,7 @@ import numpy as np
 
 from . import dsl
 from .extract import NLP, declare, quiet
-from .sx2smt import RockitRaised, QZ, FracZ3Domain, SXProgram, ConstPool, Z3Domain, RefZ3Domain, FloatDomain, PolyFloatDomain, HarnessError, Unsupported
+from .sx2smt import DimMismatch, RockitRaised, QZ, FracZ3Domain, SXProgram, ConstPool, Z3Domain, RefZ3Domain, FloatDomain, PolyFloatDomain, HarnessError, Unsupported
 
 NPTS = 3   # fingerprint points
 
@@ -218,7 +218,7 @@ class Inst:
             self.xv, self.pv = list(bound['z'][0]), list(bound['z'][1])
             self.pts = [(list(bound[d][0]), list(bound[d][1])) for d in range(NPTS)]
             if len(self.xv) != nlp.nx or len(self.pv) != nlp.np:
-                raise HarnessError('binding does not cover the variables of the second transcription (%d/%d x, %d/%d p)' % (len(self.xv), nlp.nx, len(self.pv), nlp.np))
+                raise DimMismatch('the two transcriptions have different sizes: %d vs %d decision variables, %d vs %d parameters' % (len(self.xv), nlp.nx, len(self.pv), nlp.np))
         self.zout = self.prog.run(self.zdom, nlp.split(self.xv, nlp.xsyms) + nlp.split(self.pv, nlp.psyms))
         self.fout = []
         for pt in self.pts:
